@@ -184,6 +184,33 @@ pub fn attach_shared(s: Arc<Shared>) {
     T_SHARED.with(|t| *t.borrow_mut() = Some(s));
 }
 
+pub fn current_shared() -> Option<Arc<Shared>> {
+    T_SHARED.with(|t| t.borrow().clone())
+}
+
+/// Run `f` as the first action of a fresh OS thread with the given hash keying (same step-clock flag as
+/// the calling run thread, so a hang in it is still contained). Steps are added to the caller's totals.
+pub fn fresh_thread<R: Send + 'static>(keying: u64, f: impl FnOnce() -> R + Send + 'static) -> R {
+    let sh = current_shared();
+    let h = std::thread::Builder::new()
+        .stack_size(64 << 20)
+        .spawn(move || {
+            set_thread_keying(keying);
+            if let Some(s) = sh {
+                attach_shared(s);
+            }
+            let r = f();
+            (r, T_STEPS.with(|s| s.get()), T_CALLS.with(|s| s.get()), T_MAXSTEPS.with(|s| s.get()), T_MAXFRAC_PPM.with(|s| s.get()))
+        })
+        .expect("spawn");
+    let (r, steps, calls, maxs, frac) = h.join().expect("fresh thread panicked outside a guarded call");
+    T_STEPS.with(|s| s.set(s.get() + steps));
+    T_CALLS.with(|s| s.set(s.get() + calls));
+    T_MAXSTEPS.with(|s| s.set(s.get().max(maxs)));
+    T_MAXFRAC_PPM.with(|s| s.set(s.get().max(frac)));
+    r
+}
+
 pub fn install_panic_hook() {
     std::panic::set_hook(Box::new(|info| {
         let msg = if let Some(s) = info.payload().downcast_ref::<&str>() {
